@@ -17,6 +17,8 @@ func allAllowed(vc tally.ValidCharacters, repl rune, s string) (rune, bool) {
 	return 0, true
 }
 
+var sharedSanitizeOptions tally.SanitizeOptions
+
 // c06E2EJob: everything handed to a reporter is sanitized, including the
 // library's own cardinality metrics.
 func c06E2EJob(tier string) *SeqJob {
@@ -64,7 +66,10 @@ func c06E2EJob(tier string) *SeqJob {
 		if cached {
 			rootTags, cardTags = map[string]string{"rootkey": "rootval"}, map[string]string{"c": "d"}
 		}
-		o := tally.ScopeOptions{Prefix: "p!x", Separator: "/", Tags: rootTags, SanitizeOptions: &c.o,
+		// the application keeps ONE options variable and assigns the configuration of the day to it (a table-driven
+		// set-up, a struct field reused across reconfiguration): what counts is its contents at the time of the call
+		sharedSanitizeOptions = c.o
+		o := tally.ScopeOptions{Prefix: "p!x", Separator: "/", Tags: rootTags, SanitizeOptions: &sharedSanitizeOptions,
 			CardinalityMetricsTags: cardTags}
 		if cached {
 			o.CachedReporter = cachedRec{rec}
